@@ -180,6 +180,10 @@ def function_cases(thorough):
         # observe the sign of zero
         out += [b('div', num(1), fn(f, v)) for v in [('neg', num(0.5, '0.5')), ('neg', num(0.2, '0.2')), num(0.2, '0.2'), ('neg', num(0)), num(0)]]
     out += [fn('id', v) for v in [s('i1'), s('i3 i1'), s(' i2  i2 '), s('nosuch'), X_, path(DOS, step('attribute', name('x')), start='root'), SELF, num(1)]]
+    # the value of a node-set valued call observed through count / string / sum / name: duplicates and order are visible there
+    for idv in [s('i3 i1'), s(' i2  i2 '), s('i3 i1 i3 i2'), X_]:
+        out += [fn('count', fn('id', idv)), fn('string', fn('id', idv)), fn('name', fn('id', idv)), fn('sum', fn('id', idv)),
+                fn('count', b('|', fn('id', idv), fn('id', s('i1'))))]
     out += [fn('lang', v) for v in [s('en'), s('EN'), s('en-US'), s('en-us'), s('e'), s(''), s('fr')]]
     two = [s(''), s('a'), s('abc'), s('b'), s('c'), s('bc'), s('aXbXc'), s('X'), A, num(1)]
     for f in ('starts-with', 'contains', 'substring-before', 'substring-after'):
@@ -299,7 +303,7 @@ def shard_main(shard, nshards, tier, mode='set'):
     viols = []
     samples = []
     outcomes = set()
-    ORDER_FAMS = ('step1', 'step2', 'abbrev', 'filter', 'union')
+    ORDER_FAMS = ('step1', 'step2', 'abbrev', 'filter', 'union', 'func')      # func: id() and other node-set valued calls
     for idx, (fam, text, ast) in enumerate(gen_cases(tier)):
         if idx % nshards != shard:
             continue
